@@ -565,6 +565,10 @@ class Interp:
 
     def read_loc(self, st, loc):
         fr, l, path = loc
+        if not (0 <= fr < len(st.frames)):
+            # a reference into an activation that has ended (a borrow of a temporary handed back by a callee):
+            # what it points to is not tracked
+            return TopV("?")
         base = st.frames[fr].get(l)
         if base is None:
             return TopV("uninit")
@@ -595,6 +599,8 @@ class Interp:
 
     def write_loc(self, st, loc, val):
         fr, l, path = loc
+        if not (0 <= fr < len(st.frames)):
+            raise Unsupported("store through a reference into an activation that has ended")
         base = st.frames[fr].get(l)
         if not path:
             st.frames[fr][l] = val
@@ -1326,12 +1332,35 @@ class Interp:
             st.dead = True
             return None
         rv = ret_state.frames[fi].get(0, UNIT)
+        # references into this activation do not survive it: what they denote is handed back as an unknown value
+        rv = self.strip_dangling(ret_state, rv, fi)
         # propagate the callee's final state into st (object identity of st is what callers hold)
         st.frames = ret_state.frames[:fi]
         st.pc = ret_state.pc[:fi]
         st.refined = ret_state.refined
         st.corr = ret_state.corr
         return rv
+
+    def strip_dangling(self, st, v, fi, depth=0):
+        if depth > 6:
+            return v
+        if v.kind == "ref":
+            if v.loc[0] >= fi:
+                try:
+                    pointee = self.read_loc(st, v.loc)
+                except Unsupported:
+                    pointee = TopV("?")
+                if pointee.kind in ("int", "top", "enum"):
+                    return pointee  # a reference to a plain value is modelled by the value (as for &u8 payloads)
+                return TopV("&", pointee.deps() if hasattr(pointee, "deps") else frozenset())
+            return v
+        if v.kind == "agg":
+            fs = [self.strip_dangling(st, x, fi, depth + 1) for x in v.fields]
+            return AggV(v.name, fs) if any(a is not b for a, b in zip(fs, v.fields)) else v
+        if v.kind == "enum" and v.variant is not None and v.fields:
+            fs = [self.strip_dangling(st, x, fi, depth + 1) for x in v.fields]
+            return EnumV(v.name, v.variant, fs, v.nvariants, v.ddeps) if any(a is not b for a, b in zip(fs, v.fields)) else v
+        return v
 
     def exec_block(self, fn, cfg, fi, b, st):
         bb = fn["blocks"][b]
